@@ -32,6 +32,7 @@ RULE = ("exhaustive small universe (coefficients in {-1,0,1,2}, lb<=3, la<=3) pl
         "coefficient list or dict mutated by the caller between construction, call and consumption, one filter called "
         "several times, equal filters of different coefficient types in both orders, several live streams consumed "
         "interleaved in chunks, non-causal filters inside a history; every history runs in a freshly forked process); "
+        "+ cascades (one filter object applied 2-4 times to its own lazy output, a memory per stage: re-entrant use); "
         "a case is non-trivial when the impl yields at least one sample or raises; distinct = distinct JSON case")
 TRUSTED = [
     "hand-written Lean model ALV/Model/C04.lean of LinearFilter.__init__/__call__ (modelled, not verified: Poly "
@@ -74,7 +75,7 @@ MANIFEST = {
                  "lengths; constructor arguments to outputs end to end; histories of lazily consumed streams over a "
                  "heap of caller objects) + translator tie T3 (captured source vs Lean compile, structural) + exact "
                  "I/O differential (single calls, long orders / inputs, histories in isolated processes)",
-    "note": "33 theorems, no pending statement; D4 (Fraction gain formatted as '(expr) / p/q') fixed in /repo "
+    "note": "35 theorems, no pending statement; D4 (Fraction gain formatted as '(expr) / p/q') fixed in /repo "
             "(2433df9), proposed_fixes/D4-fraction-gain.diff",
 }
 
@@ -381,7 +382,47 @@ def _xs_obj(xs, how):
 def impl(c):
     if c["entry"] == "hist":
         return H.impl(c)
+    if c["entry"] == "cascade":
+        return impl_cascade(c)
     return impl_call(c)
+
+
+def impl_cascade(c):
+    """f(f(…f(xs, memory=m1)…), memory=mk): ONE filter object, its generators nested (re-entrant use)"""
+    import audiolazy.lazy_filters as lf
+    captured = []
+    orig = lf._exec_eval
+
+    def spy(data, expr):
+        captured.append(data)
+        return orig(data, expr)
+
+    stage = "init"
+    lf._exec_eval = spy
+    try:
+        filt = _build(c)
+        stage = "call"
+        xs = [val(x) for x in c["xs"]]
+        cur = _xs_obj(xs, c.get("xs_as", "list"))
+        mems = []
+        for m in c["mems"]:
+            kw = {"zero": val(c["zero"])}
+            mo = _mem_obj(m)
+            if mo is not None:
+                kw["memory"] = mo
+            mems.append(mo)
+            cur = filt(cur, **kw)
+        stage = "iter"
+        out = list(cur)
+        irs = [parse_source(src) for src in captured]
+        obs = {"out": [enc(y) for y in out], "n_exec": len(captured), "irs_equal": all(i == irs[0] for i in irs),
+               "ir": irs[0] if irs else {"kind": "unparsed", "why": "no source captured"},
+               "src": captured[0] if captured else None}
+    except Exception as e:
+        obs = {"err": err_kind(e), "stage": stage, "msg": str(e)[:80]}
+    finally:
+        lf._exec_eval = orig
+    return obs
 
 
 def impl_call(c):
@@ -424,9 +465,26 @@ def impl_call(c):
     return obs
 
 
+def _mem_req(m):
+    if m is None:
+        return None
+    mm = {"kind": m["kind"]}
+    if "vals" in m:
+        mm["vals"] = [exact(v) for v in m["vals"]]
+    for f in ("base", "step"):
+        if f in m:
+            mm[f] = exact(m[f])
+    if "form" in m:
+        mm["form"] = m["form"]
+    return mm
+
+
 def request(c):
     if c["entry"] == "hist":
         return H.request(c)
+    if c["entry"] == "cascade":
+        return {"entry": "cascade", "num": [[k, exact(v)] for k, v in c["num"]], "den": [[k, exact(v)] for k, v in c["den"]],
+                "zero": exact(c["zero"]), "xs": [exact(x) for x in c["xs"]], "mems": [_mem_req(m) for m in c["mems"]]}
     r = {"entry": "call",
          "num": [[k, exact(v)] for k, v in c["num"]],
          "den": [[k, exact(v)] for k, v in c["den"]],
@@ -534,9 +592,43 @@ def _abbr(ir):
     return d
 
 
+def _compare_cascade(c, io, drv):
+    out = []
+    model, spec = drv["model"], drv["spec"]
+    if "err" in io:
+        if model.get("err") != io["err"]:
+            out.append(("model", "cascade raised %s (%s: %s), model says %s" % (io["err"], io.get("stage"), io.get("msg"), model.get("err", "no error"))))
+        if spec.get("err") != io["err"]:
+            out.append(("spec", "cascade raised %s (%s: %s), the property says %s" % (io["err"], io.get("stage"), io.get("msg"), spec.get("err", "no error"))))
+        return out
+    if "err" in model:
+        out.append(("model", "model raises %s, impl ran" % model["err"]))
+    if "err" in spec:
+        out.append(("spec", "the property demands %s, impl ran and gave %r" % (spec["err"], io["out"][:6])))
+    if out:
+        return out
+    k = len(c["mems"])
+    if k and (io["n_exec"] != k or not io["irs_equal"] or io["ir"] != model["ir"]):
+        out.append(("model", "%d stage(s) generated %d source(s) (all equal: %s); impl IR %r, model IR %r" % (
+            k, io["n_exec"], io["irs_equal"], _abbr(io["ir"]), _abbr(model["ir"]))))
+    got = [dec(v) for v in io["out"]]
+    for kind, ref, what in (("model", model, "output differs from model"),
+                            ("spec", spec, "the filter applied %d times to its own output violates the difference equation" % k)):
+        want = [dec(v) for v in ref["out"]]
+        if len(got) != len(want):
+            out.append((kind, "%s: length %d instead of %d" % (what, len(got), len(want))))
+        else:
+            bad = [i for i, (g, w) in enumerate(zip(got, want)) if isinstance(g, float) or g != w]
+            if bad:
+                out.append((kind, "%s: y[%d] = %s instead of %s" % (what, bad[0], got[bad[0]], want[bad[0]])))
+    return out
+
+
 def compare(c, io, drv):
     if c["entry"] == "hist":
         return H.compare(c, io, drv)
+    if c["entry"] == "cascade":
+        return _compare_cascade(c, io, drv)
     out = _compare_call(c, io, drv)
     if out and not io.get("isolated") and _ISO_BUDGET[0] > 0:
         _ISO_BUDGET[0] -= 1
@@ -616,6 +708,8 @@ def _short_memory(c, model):
 def nontrivial(c, io):
     if c["entry"] == "hist":
         return H.nontrivial(c, io)
+    if c["entry"] == "cascade":
+        return "err" in io or (bool(io.get("out")) and len(c["mems"]) >= 2)
     return "err" in io or bool(io.get("out"))
 
 
@@ -645,6 +739,13 @@ def _d4_prediction(c, model):
 def classify(c, io, drv):
     if c["entry"] == "hist":
         return H.classify(c, io, drv)
+    if c["entry"] == "cascade":
+        ps = _compare_cascade(c, io, drv)
+        if "err" in io:
+            return "cascade:raises-%s-at-%s" % (io["err"], io.get("stage"))
+        if any(k == "spec" for k, _ in ps):
+            return "cascade:" + ("output-length" if any("length" in d for k, d in ps if k == "spec") else "output-values")
+        return "cascade:correspondence"
     if io.get("state_dependent"):
         return "call:state-left-by-earlier-cases-of-the-run"
     model, spec = drv.get("model", {}), drv.get("spec", {})
@@ -882,6 +983,36 @@ def _long_case(rng, shape, D, n=None):
             "fast": True, "long": shape}
 
 
+def _gen_cascade(rng, tier, scale):
+    """re-entrant use: one filter object applied 2-4 times to its own lazy output (exact regime only: integer
+    coefficients, Fraction data, integer-valued zero)"""
+    out = []
+    for _ in range((120 if tier == "quick" else 1500) * scale):
+        route = rng.choice(["list", "list", "dict", "zexpr", "linear", "poly"])
+        lb, la = rng.choice([1, 2, 2, 3]), rng.choice([1, 2, 2, 3])
+        b = [rng.choice([0, 1, -1, 2, 3, -2]) for _ in range(lb)]
+        a = [rng.choice([1, -1, 2, 3])] + [rng.choice([0, 1, -1, 2, -3]) for _ in range(la - 1)]
+        num, den = [[k, v] for k, v in enumerate(b)], [[k, v] for k, v in enumerate(a)]
+        if route in ("dict", "zexpr"):
+            num = [[k, v] for k, v in num if v != 0]
+            den = [[k, v] for k, v in den if v != 0]
+            if rng.random() < 0.08:
+                num.append([-1, 2])                       # non-causal: refuses at the first stage
+        lm = _lm_of(den)
+        mems = []
+        for _ in range(rng.choice([2, 2, 3, 4])):
+            r = rng.random()
+            mems.append(None if r < 0.35 else
+                        {"kind": "iter", "vals": [_sample(rng, "frac") for _ in range(lm + rng.choice([0, 0, 1]))],
+                         "as": rng.choice(["list", "tuple", "gen", "stream", "deque"])} if r < 0.85 else
+                        {"kind": "callable", "form": "arith", "base": _sample(rng, "frac"), "step": _sample(rng, "frac")})
+        out.append({"entry": "cascade", "route": route, "num": num, "den": den, "mems": mems,
+                    "zero": rng.choice(["0/1", "0/1", "7/1", "-2/1"]),
+                    "xs": [_sample(rng, "frac") for _ in range(rng.choice([0, 1, 3, 5, 8]))],
+                    "xs_as": rng.choice(["list", "iter", "tuple", "gen", "stream"])})
+    return out
+
+
 def _gen_long(rng, tier, scale):
     quick = tier == "quick"
     out = []
@@ -939,6 +1070,7 @@ def generate(rng, tier, scale=1):
             num = [[k, v] for k, v in dict((k, v) for k, v in num).items()]
             den = [[k, v] for k, v in dict((k, v) for k, v in den).items()]
         cases.append(_case(rng, route, num, den, 6, "frac"))
+    cases.extend(_gen_cascade(random.Random(rng.random()), tier, scale))
     # long runs / large orders, then histories (own random streams: the batches above keep their draws)
     cases.extend(_gen_long(random.Random(rng.random()), tier, scale))
     cases.extend(H.generate(random.Random(rng.random()), tier, scale))
@@ -952,6 +1084,11 @@ def tally(eng, c, io):
     eng.count("entry", c["entry"] + ("/long" if c.get("long") else ""))
     if c["entry"] == "hist":
         return H.tally(eng, c, io)
+    if c["entry"] == "cascade":
+        eng.count("cascade_stages", len(c["mems"]))
+        eng.count("cascade_memories", "+".join(sorted({"none" if m is None else m.get("as", m["kind"]) for m in c["mems"]})) or "-")
+        eng.count("cascade_result", "error" if "err" in io else "outputs")
+        return
     if c.get("long"):
         eng.count("long_shape", c["long"])
         ks = [k for k, v in c["num"] + c["den"] if val(v) != 0]
@@ -1008,6 +1145,20 @@ def shrink(c):
     if c["entry"] == "hist":
         for d in H.shrink(c):
             yield d
+        return
+    if c["entry"] == "cascade":
+        ms = c["mems"]
+        for i in range(len(ms)):
+            yield dict(c, mems=ms[:i] + ms[i + 1:])
+            if ms[i] is not None:
+                yield dict(c, mems=ms[:i] + [None] + ms[i + 1:])
+                if ms[i].get("as", "list") != "list":
+                    yield dict(c, mems=ms[:i] + [dict(ms[i], **{"as": "list"})] + ms[i + 1:])
+        for d in _shrink_rest(dict(c, mem=None)):
+            if d.get("mem") is None and "fast" not in d:
+                d = dict(d)
+                d.pop("mem", None)
+                yield d
         return
     if "xs_pat" in c:
         p = c["xs_pat"]
@@ -1160,7 +1311,7 @@ def _shrink_rest(c):
 
 
 def neighbours(c):
-    if c["entry"] == "hist" or c.get("long"):
+    if c["entry"] in ("hist", "cascade") or c.get("long"):
         return
     for side in ("num", "den"):
         ps = c[side]
